@@ -517,8 +517,10 @@ def run_c01(ctx):
     ctx.count("sum:steps", total_steps)
     if ref.tolerant:
         ctx.count("tolerant_mode_runs")
+    for k, v in ref.probes.items():
+        ctx.count("probe:" + k, v)
     try:
-        ctx.count("sum:simulated_time", round(abs(float(ref.vars["<t>"]) - float(sc.t0)), 6))
+        ctx.count("sum:simulated_time", round(min(abs(float(ref.vars["<t>"]) - float(sc.t0)), 1e3), 6))
     except Exception:
         pass
     n_calls = sum(count_ops(ph.ops) for ph in sc.phases)
